@@ -5,8 +5,21 @@ open Insim Insim.Drv
 
 def joinHex (v : List Bytes) : String := if v.isEmpty then "-" else String.intercalate "+" (v.map toHex)
 
+def parseOp (t : String) : Option Udp.AOp :=
+  if t = "f" then some .fl
+  else if t.startsWith "w" then (parseHex (t.drop 1).toString).map .wr
+  else t.toNat?.map .rd
+
 def handle (ws : List String) : Option String :=
   match ws with
+  | ["udp.ops", _fl, ops, dg] =>
+    let os : Option (List Udp.AOp) := if ops = "-" then some [] else (ops.splitOn ",").mapM parseOp
+    let ds : Option (List Bytes) := if dg = "-" then some [] else (dg.splitOn "+").mapM parseHex
+    match os, ds with
+    | some os, some ds =>
+      let r := Udp.runOps { buf := [], ds := ds, sent := [] } os
+      some s!"{joinHex r.1} sent={joinHex r.2.sent}"
+    | _, _ => some "bad-op"
   | ["udp.adaptor", _fl, offers, dg] =>
     let os : Option (List Nat) := if offers = "-" then some [] else (offers.splitOn ",").mapM String.toNat?
     let ds : Option (List Bytes) := if dg = "-" then some [] else (dg.splitOn "+").mapM parseHex
